@@ -12,6 +12,10 @@ use serde::{Deserialize, Serialize};
 #[derive(Clone, Debug, Serialize, Deserialize)]
 pub struct Case {
     pub cfg: EmfCfg,
+    /// entries formatted on the same formatter BEFORE the entry under test (their output is
+    /// ignored): the property is about every entry a formatter emits, not only its first
+    #[serde(default)]
+    pub warmup: Vec<GenEntry>,
     pub entry: GenEntry,
     /// None = unsampled; Some(k<=52) = rate 2^-k (weight exactly 2^k); Some(100) = rate below
     /// 2^-63 (weight saturates at u64::MAX)
@@ -52,15 +56,20 @@ pub fn arb_rate_exp() -> impl Strategy<Value = Option<u8>> {
 
 pub fn arb_case() -> impl Strategy<Value = Case> {
     (
-        arb_valid(true),
+        crate::emfgen::arb_valid_seq(1..4, true),
         arb_rate_exp(),
         prop::collection::vec(any::<u64>(), 0..3),
+        prop::bool::weighted(0.5),
     )
-        .prop_map(|((cfg, entry), rate_exp, words)| Case {
-            cfg,
-            entry,
-            rate_exp,
-            words,
+        .prop_map(|((cfg, mut entries), rate_exp, words, warm)| {
+            let entry = entries.pop().unwrap();
+            Case {
+                cfg,
+                warmup: if warm { entries } else { vec![] },
+                entry,
+                rate_exp,
+                words,
+            }
         })
 }
 
@@ -70,6 +79,10 @@ pub fn check(case: &Case) -> CaseResult {
     let log = record(&prepared);
     let mut out: Vec<u8> = vec![];
     let mut emf = no_panic("emf-build", || case.cfg.build())?;
+    for w in &case.warmup {
+        let mut sink: Vec<u8> = vec![];
+        let _ = no_panic("emf-format-warmup", || format_once(&mut emf, w, &Sampling::None, &mut sink))?;
+    }
     let dec = no_panic("emf-format", || {
         format_once(&mut emf, &case.entry, &sampling, &mut out)
     })?;
@@ -137,6 +150,9 @@ pub fn check(case: &Case) -> CaseResult {
     // classification
     let mut classes: Classes = vec![];
     let mut feats = 0;
+    if !case.warmup.is_empty() {
+        classes.push("warm-formatter");
+    }
     if !case.cfg.extra_namespaces.is_empty() {
         classes.push("multi-namespace");
         feats += 1;
@@ -293,7 +309,7 @@ fn check_missing_timestamp(ctx: &mut Ctx) {
     ctx.push_custom(t.finish(&[]));
 }
 
-pub const RULE: &str = "valid-by-construction entries (unique names per record, declared dimensions written as strings, split/entry-dimension config before the first dimensioned metric, one timestamp; arbitrary Unicode in every name and string; 0-5 observations incl. NaN/inf/zero-occurrence; all units; flags; 0-3 distinct per-metric dimension sets presented in rotated key order) x configurations (5 constructors, 1-3 namespaces, 1-3 default dimension sets, entry dimensions, extra directives, log group, ignored-dimension mode) x sampling weight (none, 2^k for k<=52, saturated). Oracle: parsed output as a multiset of records == independent reference interpretation RefEmf of the recorded call sequence; RecLog cross-checked against to_test_entry. Non-trivial = >=2 of {multi-namespace, >=2 split records, entry dimensions, integer > 2^53, non-finite observation, sampling}";
+pub const RULE: &str = "valid-by-construction entries (unique names per record, declared dimensions written as strings, split/entry-dimension config before the first dimensioned metric, one timestamp; arbitrary Unicode in every name and string; 0-5 observations incl. NaN/inf/zero-occurrence; all units; flags; 0-3 distinct per-metric dimension sets presented in rotated key order) on a fresh formatter or on one that has already formatted 1-2 other valid entries of the same configuration (warm formatter) x configurations (5 constructors, 1-3 namespaces, 1-3 default dimension sets, entry dimensions, extra directives, log group, ignored-dimension mode) x sampling weight (none, 2^k for k<=52, saturated). Oracle: parsed output as a multiset of records == independent reference interpretation RefEmf of the recorded call sequence; RecLog cross-checked against to_test_entry. Non-trivial = >=2 of {multi-namespace, >=2 split records, entry dimensions, integer > 2^53, non-finite observation, sampling}";
 
 pub fn run(ctx: &mut Ctx) {
     ctx.assume("RefEmf encodes the documented meaning of an entry (emf.rs docs + in-tree expected outputs); float lexemes are compared after correctly rounded parsing, integers by lexeme");
@@ -317,6 +333,7 @@ pub fn run(ctx: &mut Ctx) {
                 "extra-directives",
                 "log-group",
                 "saturating-weight",
+                "warm-formatter",
             ]),
         arb_case,
         check,
